@@ -89,9 +89,7 @@ func VerifC01RoundTrip() {
 		return
 	}
 	if ct == "application/octet-stream" {
-		verif.Expect("KF-C01-octet-stream-client-sends-json-server-decodes-binary", ok)
-		verif.Reach("C01/kf-octet-stream")
-		return
+		verif.Reach("C01/octet-stream") // region of the codec mismatch repaired in ce71877
 	}
 	verif.Assert("C01/no-client-error", err == nil)
 	verif.Assert("C01/handler-of-the-same-rpc-invoked-once", srv.calls == 1 && srv.last == wantHandler)
